@@ -26,6 +26,7 @@ def check(repo, tier="quick"):
     res.rule("C09.b", "the callback is invoked at most once, with (current_picture, video_parameters, picture_coding_mode), only when present")
     res.rule("C09.c", "current_picture['pic_num'] is stored from state['picture_number'] and not overwritten")
     res.rule("C09.e", "component dimensions: subband_width/subband_height (not pinned to a listing) describe a dyadic pyramid: the padding unit equals the level-0 divisor, level 1 has the DC band's size, each further level halves the divisor in the directions its transform acts in, and the horizontal-only / 2D split is at dwt_depth_ho")
+    res.rule("C09.g", "padding removal: delete_rows_after(a, k) deletes a[k:] and delete_columns_after(a, k) deletes row[k:] of every row, unconditionally or behind a guard on the matching dimension only (height / len(a) for rows, width / len(a[0]) for columns)")
     res.rule("C09.f", "sample ranges: every function in the decoder's reach computes with exact integers (no true division, math.*, float(), round() or float constants), so bit depths and clipping bounds are exact at any signal range")
     res.rule("C09.d", "parse_sequence calls picture_decode exactly after picture_parse and under fragmented_picture_done after fragment_parse; fragmented_picture_done is set exactly when the received slice count reaches slices_x * slices_y")
 
@@ -123,7 +124,9 @@ def check(repo, tier="quick"):
     res.check(ok, "C09.d", "initialize_fragment_state:done-flag-cleared", "%s:initialize_fragment_state" % im.rel, "a new fragmented picture must clear fragmented_picture_done (else the next slice-bearing fragment outputs a second picture)", by="cleared for each new fragmented picture")
     rule_e(repo, res)
     rule_f(repo, res)
-    res.floor("C09.e", 6)
+    rule_g(repo, res)
+    res.floor("C09.g", 2)
+    res.floor("C09.e", 10)
     res.floor("C09.f", 50)
     res.floor("C09.a", 1)
     res.floor("C09.b", 3)
@@ -224,6 +227,24 @@ def rule_e(repo, res):
         res.check(set(exps) == {"zero", "ho", "2d"} and None not in exps.values(), "C09.e", "%s:three-level-ranges" % fname, where, "the divisor must be given as padded // (1 << e) for level == 0, level <= dwt_depth_ho and level > dwt_depth_ho (found %s)" % sorted(exps), by="level 0 / horizontal-only levels / 2D levels")
         if set(exps) != {"zero", "ho", "2d"} or None in exps.values():
             continue
+        # a function of the current parameters only: reads nothing of the state but the sizes and depths, and has no
+        # exit other than the three level ranges (no memo, no shortcut)
+        st = fn.args.args[0].arg
+        reads = set()
+        opaque = []
+        for n in ast.walk(fn):
+            if isinstance(n, ast.Subscript) and dotted(n.value) == st:
+                reads.add(const_str(n.slice) or "?")
+            elif isinstance(n, ast.Attribute) and dotted(n.value) == st:
+                opaque.append("%s.%s" % (st, n.attr))
+            elif isinstance(n, ast.Compare) and any(isinstance(o, (ast.In, ast.NotIn)) for o in n.ops) and any(dotted(c) == st for c in n.comparators):
+                opaque.append("membership test on %s" % st)
+            elif isinstance(n, ast.Call) and any(isinstance(a, ast.Name) and a.id == st for a in n.args) and dotted(n.func) not in ("subband_width", "subband_height"):
+                opaque.append("%s passed to %s" % (st, dotted(n.func) or "a call"))
+        allowed = {"luma_width", "color_diff_width", HO, D} if fname == "subband_width" else {"luma_height", "color_diff_height", HO, D}
+        res.check(reads <= allowed and not opaque, "C09.e", "%s:reads-only-sizes-and-depths" % fname, where, "%s must be a function of the current picture size and transform depths only; it also reads %s: a value remembered from an earlier picture would give a later picture (other depths) the earlier one's dimensions" % (fname, sorted(reads - allowed) + opaque), by="reads %s" % sorted(reads))
+        n_ret = sum(1 for n in ast.walk(fn) if isinstance(n, ast.Return))
+        res.check(n_ret == 3, "C09.e", "%s:no-other-exit" % fname, where, "%s has %d return statements; only the three level ranges may return" % (fname, n_ret), by="3 returns, one per level range")
         rename = lambda d: {("level" if k == lvl else k): v for k, v in d.items()}
         got0, got_ho, got_2d = rename(exps["zero"]), rename(exps["ho"]), rename(exps["2d"])
         res.check(scale[1] is not None and rename(scale[1]) == got0, "C09.e", "%s:scale-equals-level-0-divisor" % fname, where, "the padding unit is 1 << (%s) but the level-0 band divides by 1 << (%s): the padded size is then not a multiple of the divisor and the decoded component comes out with the wrong size" % (scale[1], got0), by="padding unit = level-0 divisor")
@@ -276,3 +297,25 @@ def rule_f(repo, res):
             continue
         ops = float_ops(fn)
         res.check(not ops, "C09.f", "integer-only:%s" % fname, "%s:%s" % (m.rel, fname), "%s computes with floating point (%s): bit depths, clipping bounds or dimensions derived from it are inexact for large values" % (fname, "; ".join("%s at line %d" % (w, n.lineno) for n, w in ops[:3])), by="exact integer arithmetic only")
+
+
+def rule_g(repo, res):
+    from ..core import pmatch
+
+    m = repo.mod("pseudocode.arrays")
+    spec = {
+        "delete_rows_after": ("del %(a)s[%(k)s:]", ("height(%(a)s) <= %(k)s", "len(%(a)s) <= %(k)s", "%(k)s >= height(%(a)s)", "%(k)s >= len(%(a)s)")),
+        "delete_columns_after": ("for X_row in %(a)s:\n    del X_row[%(k)s:]", ("width(%(a)s) <= %(k)s", "len(%(a)s[0]) <= %(k)s", "%(k)s >= width(%(a)s)", "%(k)s >= len(%(a)s[0])")),
+    }
+    for fname, (core_pat, guards) in spec.items():
+        fn = m.funcs.get(fname)
+        if fn is None:
+            raise AnalysisError("anchor vanished: pseudocode.arrays.%s" % fname)
+        a, k = [x.arg for x in fn.args.args[:2]]
+        env = {"a": a, "k": k}
+        body = [s for s in fn.body if not (isinstance(s, ast.Expr) and isinstance(s.value, ast.Constant))]
+        ok = bool(body) and pmatch(core_pat % env, body[-1]) is not None
+        for s in body[:-1]:
+            g = isinstance(s, ast.If) and not s.orelse and len(s.body) == 1 and isinstance(s.body[0], ast.Return) and s.body[0].value is None and norm(s.test) in [norm(ast.parse(x % env).body[0].value) for x in guards]
+            ok = ok and g
+        res.check(ok, "C09.g", "%s:deletes-from-k" % fname, "%s:%s" % (m.rel, fname), "%s must end with `%s`, preceded at most by an early return when the *matching* dimension is already <= %s (found: %s)" % (fname, (core_pat % env).replace("\n    ", " "), k, "; ".join(short(x, 50) for x in body)), by="deletes from index %s on, no guard on the other dimension" % k)
